@@ -107,12 +107,15 @@ func c03Case(r *evid.Run, tier string, idx int, g *rng.R) {
 		return rev
 	}
 	half := vset[:len(vset)/2]
-	w.env.Vars = map[refeval.Name]refeval.Value{{Local: "fwd"}: vset, {Local: "rev"}: vset, {Local: "half"}: half}
-	cfg.Vars = []xast.VarSpec{{Local: "fwd", T: xast.TNodeSet}, {Local: "rev", T: xast.TNodeSet}, {Local: "half", T: xast.TNodeSet}}
+	w.env.Vars = map[refeval.Name]refeval.Value{{Local: "fwd"}: vset, {Local: "rev"}: vset, {Local: "half"}: half, {Local: "shuf"}: vset}
+	cfg.Vars = []xast.VarSpec{{Local: "fwd", T: xast.TNodeSet}, {Local: "rev", T: xast.TNodeSet}, {Local: "half", T: xast.TNodeSet}, {Local: "shuf", T: xast.TNodeSet}}
+	shufSeed := g.U64()
 	binds := func() []xsel.ContextApply {
 		// fresh slices per query so that earlier in-place sorting cannot heal later ones
 		f := append(xsel.NodeSet{}, fwd...)
-		return []xsel.ContextApply{xsel.WithVariable("fwd", f), xsel.WithVariable("rev", mkRev()), xsel.WithVariable("half", f[:len(f)/2])}
+		sh := append(xsel.NodeSet{}, fwd...)
+		rng.Shuffle(rng.New(shufSeed, "shuf"), sh)
+		return []xsel.ContextApply{xsel.WithVariable("fwd", f), xsel.WithVariable("rev", mkRev()), xsel.WithVariable("half", f[:len(f)/2]), xsel.WithVariable("shuf", sh)}
 	}
 
 	run := func(class string, ctx *adoc.Node, e xast.Expr) (refeval.Value, xsel.NodeSet, bool) {
@@ -187,7 +190,9 @@ func c03Case(r *evid.Run, tier string, idx int, g *rng.R) {
 	}
 	// unions and their laws
 	operand := func() xast.Expr {
-		switch g.Intn(6) {
+		switch g.Intn(7) {
+		case 6:
+			return xast.Var{Local: "shuf"}
 		case 0:
 			return xast.Var{Local: "rev"}
 		case 1:
